@@ -102,7 +102,10 @@ package p2p
 //@   ensures [C13] exact: result == nil <==> chainOK(want, have)
 
 //@ func sendMessage(ctx, host, to, protocol, req)
-//@   props C13, C05
+//@   props C13, C05, C18
+//@   ghost dlOK bool := result1 of call iface.Deadline #0
+//@   ghost dlSet error := result0 of call iface.SetDeadline #0
+//@   before Read [C18,C05] read-deadline-armed: called(dlOK) && (dlOK ==> called(dlSet)) -- the response is read under the request's deadline (read and write side): a silent peer costs one request timeout, after which the chunk goes back to the queue
 //@   modifies $now
 //@   ensures [C05] at-most-requested: len(result0) <= req.Amount
 //@ loop 0:
